@@ -1012,3 +1012,62 @@ def value_alternatives(e, depth=0):
     if e.get("k") == "blockexpr" and "tail" in e["b"]:
         return value_alternatives(e["b"]["tail"], depth + 1)
     return [([], e)]
+
+
+def result_table(ix, e, depth=0, unwrap=("Option::Some", "Result::Ok")):
+    """[(conditions, leaf expression)] for the values an expression can produce: through immutable lets, if/else, match arms
+    (an arm contributes {"k": "armpat", "scrut", "pat"} and its guard; earlier guarded arms of the same pattern contribute their negated guard),
+    blocks and the wrappers in `unwrap`.  Conditions are (node, polarity) pairs as in path_conditions."""
+    e = tail_value(e)
+    if depth > 8:
+        return [([], e)]
+    k = e.get("k")
+    if k == "local" and e["id"] in _tree.LET_INITS:
+        init = _tree.LET_INITS[e["id"]]
+        outer = path_conditions(ix, init) if id(init) in ix.pre else []
+        return [(outer + cs, x) for cs, x in result_table(ix, init, depth + 1, unwrap)]
+    if k == "ctor" and callee(e).endswith(tuple(unwrap)) and len(e.get("args", [])) == 1:
+        return result_table(ix, e["args"][0], depth + 1, unwrap)
+    if k == "if" and "else" in e:
+        out = []
+        for br, pol in ((e["then"], True), (e["else"], False)):
+            if _diverges(br):
+                continue
+            conds = []
+            for c_ in ([resolve(e["cond"])] if not pol else conjuncts(e["cond"])):
+                conds.append((c_, pol))
+            out += [(conds + cs, x) for cs, x in result_table(ix, br, depth + 1, unwrap)]
+        return out
+    if k == "match":
+        out = []
+        for i_, arm in enumerate(e["arms"]):
+            if _diverges(arm["body"]):
+                continue
+            conds = [({"k": "armpat", "scrut": e["scrut"], "pat": arm["pat"]}, True)]
+            if "guard" in arm:
+                conds += [(c_, True) for c_ in conjuncts(arm["guard"])]
+            for prev in e["arms"][:i_]:
+                if "guard" in prev and _same_pattern_shape(prev["pat"], arm["pat"]):
+                    conds.append((resolve(prev["guard"]), False))
+            out += [(conds + cs, x) for cs, x in result_table(ix, arm["body"], depth + 1, unwrap)]
+        return out
+    if k == "blockexpr":
+        b = e["b"]
+        if "tail" in b:
+            return result_table(ix, b["tail"], depth + 1, unwrap)
+    if k in ("return", "ireturn") and "e" in e:
+        return result_table(ix, e["e"], depth + 1, unwrap)
+    return [([], e)]
+
+
+def function_results(f, ix):
+    """result_table over every exit of a function body: the tail and every `return`, each with its path conditions"""
+    out = []
+    exits = [(n["e"], n) for n in ix.nodes if n.get("k") == "return" and "e" in n]
+    body = f["body"]
+    exits.append((body, None))
+    for e, node in exits:
+        pre = path_conditions(ix, node) if node is not None else []
+        for cs, x in result_table(ix, e):
+            out.append((pre + cs, x))
+    return out
